@@ -85,19 +85,61 @@ structure OT (E : Env U π) (rank : UNT U → Nat) (s : St U π) (emE : List (π
   oc : OC E rank s emE
   cache : CacheC s
 
-theorem pushNext_total (R : RHyp E rank Good) (hnf : ∀ p, E.filter p = true) {L Al A : Nat} (T : THyp E L Al A) {fuel : Nat}
+/-- a finite list containing every member of the grammar -/
+def langList (E : Env U π) (rank : UNT U → Nat) : List Prog :=
+  E.G.starts.flatMap (fun st => langL E (rank st.1 + 1) st.1)
+
+/-- the programs handed over by the start heap are distinct members: at most `|langList|` of them -/
+theorem em_length_le (R : RHyp E rank Good) {s : St U π} {emE : List (π × Prog × UNT U)} (h : OG E rank s emE) :
+    emE.length ≤ (langList E rank).length := by
+  have hnd : (emE.map (·.2.1)).Nodup := by
+    have := h.ginv.em_nodup
+    rw [List.map_map] at this
+    exact this
+  have hsub : ∀ p, p ∈ emE.map (·.2.1) → p ∈ langList E rank := by
+    intro p hp
+    obtain ⟨x, hx, hxe⟩ := List.mem_map.mp hp
+    obtain ⟨hd, w, hw⟩ := h.ginv.em_der (x.2.1, x.2.2) (List.mem_map.mpr ⟨x, hx, rfl⟩)
+    simp only at hd hw
+    rw [← hxe]
+    exact List.mem_flatMap.mpr ⟨(x.2.2, w), AList.lookup_some_mem hw,
+      mem_langL R.ohyp.acyclic _ _ _ (Nat.lt_succ_self _) hd⟩
+  have := nodup_length_le _ _ hnd hsub
+  simpa using this
+
+theorem deleted_length_le (R : RHyp E rank Good) {s : St U π} {emE : List (π × Prog × UNT U)} (h : OG E rank s emE) :
+    s.deleted.length ≤ (langList E rank).length := by
+  have h1 := nodup_length_le s.deleted (emE.map (·.2.1)) h.del_nodup h.del_em
+  have h2 := em_length_le R h
+  simp only [List.length_map] at h1
+  omega
+
+theorem pushNext_total (R : RHyp E rank Good) {L Al A : Nat} (T : THyp E L Al A) {fuel : Nat}
     {s : St U π} {emE : List (π × Prog × UNT U)} {nt : UNT U} {p : Option Prog} {w : Rat} (h : OG E rank s emE) (hc : CacheC s)
-    (hw : startW E nt = some w) (hfuel : (rank nt + 1) * (L + Al + A + 6) ≤ fuel) (hpp : ∀ k, p = some k → Popped s nt k) :
+    (hw : startW E nt = some w) (hfuel : (rank nt + 1) * (L + Al + A + 6 + (langList E rank).length) ≤ fuel)
+    (hpp : ∀ k, p = some k → Popped s nt k) (hpn : p = none → emE = []) :
     ∃ s', pushNext E fuel s nt p = some s' ∧ CacheC s' := by
   have H := R.ohyp
   have hk := H.ghyp.kway
   have hopre : OPre E rank (.query nt p) s := by
-    refine ⟨h.all.below _, ?_, hpp, fun _ => h.base.nodel hnf⟩
-    rcases h.all nt with hu | hf
-    · exact Or.inl hu
-    · exact Or.inr ⟨hf.1, hf.2.2⟩
-  obtain ⟨⟨s1, r⟩, hq⟩ := (low_all H hnf T (rank nt + 1)).query nt (Nat.lt_succ_self _) (T.starts_closed nt w hw) fuel s p hfuel
-    h.base hc hopre
+    refine ⟨h.all.below _, ?_, hpp, ?_⟩
+    · rcases h.all nt with hu | hf
+      · exact Or.inl hu
+      · exact Or.inr ⟨hf.1, hf.2.2⟩
+    · intro hs0
+      cases p with
+      | some k0 =>
+        obtain ⟨k', hk'⟩ := hpp k0 rfl
+        rw [hs0] at hk'; cases hk'
+      | none =>
+        have he := hpn rfl
+        apply List.eq_nil_iff_forall_not_mem.mpr
+        intro q hq
+        have := h.del_em q hq
+        rw [he] at this
+        cases this
+  obtain ⟨⟨s1, r⟩, hq⟩ := (low_all H T (langList E rank).length (rank nt + 1)).query nt (Nat.lt_succ_self _)
+    (T.starts_closed nt w hw) fuel s p hfuel h.base hc (deleted_length_le R h) hopre
   have hb := big_of_query E hq
   have hc1 := (big_cacheC E hk hb hc).1
   unfold pushNext
@@ -125,18 +167,20 @@ theorem pushNext_total (R : RHyp E rank Good) (hnf : ∀ p, E.filter p = true) {
     have hcs := computePrio_step E hcp
     exact hc1.congr (fun nt' => by show s2.seenOf nt' = _; rw [hcs.seenOf]) hg
 
-theorem pushNexts_total (R : RHyp E rank Good) (hnf : ∀ p, E.filter p = true) {L Al A : Nat} (T : THyp E L Al A) {fuel : Nat} :
+theorem pushNexts_total (R : RHyp E rank Good) {L Al A : Nat} (T : THyp E L Al A) {fuel : Nat} :
     ∀ (l : List (UNT U)) (s : St U π), OG E rank s [] → CacheC s → l.Nodup → (∀ nt, nt ∈ s.startHeap.map (·.2.2) → nt ∉ l) →
-      (∀ nt, nt ∈ l → ∃ w, startW E nt = some w) → (∀ nt, nt ∈ l → (rank nt + 1) * (L + Al + A + 6) ≤ fuel) →
+      (∀ nt, nt ∈ l → ∃ w, startW E nt = some w) →
+      (∀ nt, nt ∈ l → (rank nt + 1) * (L + Al + A + 6 + (langList E rank).length) ≤ fuel) →
       ∃ s', pushNexts E fuel l s = some s' ∧ CacheC s'
   | [], s, _, hc, _, _, _, _ => ⟨s, rfl, hc⟩
   | nt :: rest, s, h, hc, hnd, hdisj, hst, hfuel => by
     obtain ⟨w, hw⟩ := hst nt List.mem_cons_self
-    obtain ⟨s1, h1, hc1⟩ := pushNext_total R hnf T (p := none) h hc hw (hfuel nt List.mem_cons_self) (by intro k hk; cases hk)
+    obtain ⟨s1, h1, hc1⟩ := pushNext_total R T (p := none) h hc hw (hfuel nt List.mem_cons_self) (by intro k hk; cases hk)
+      (fun _ => rfl)
     obtain ⟨g1, hsub, _, _, _, _⟩ := h.pushNext R (fun hm => hdisj nt hm List.mem_cons_self) (by simp [doneR])
       (by intro k hk; cases hk) (fun _ => rfl) (E.ops.ofRule 0) (by intro x hx; cases hx)
       (by intro k w pr hk; cases hk) h1
-    obtain ⟨s', hs', hc'⟩ := pushNexts_total R hnf T rest s1 g1 hc1 (List.nodup_cons.mp hnd).2 (by
+    obtain ⟨s', hs', hc'⟩ := pushNexts_total R T rest s1 g1 hc1 (List.nodup_cons.mp hnd).2 (by
         intro nt' hm
         obtain ⟨e, he, rfl⟩ := List.mem_map.mp hm
         rcases hsub e he with ho | ⟨hn, _⟩
@@ -146,13 +190,15 @@ theorem pushNexts_total (R : RHyp E rank Good) (hnf : ∀ p, E.filter p = true) 
       (fun nt' hn => hst nt' (List.mem_cons_of_mem _ hn)) (fun nt' hn => hfuel nt' (List.mem_cons_of_mem _ hn))
     exact ⟨s', by simp only [pushNexts, h1]; exact hs', hc'⟩
 
-/-- the fuel is enough for every start symbol -/
+/-- the fuel is enough for every start symbol; `C` = rows + alternatives + arity + 6 + (number of programs a
+    filter can reject) -/
 def FuelOK (E : Env U π) (rank : UNT U → Nat) (C fuel : Nat) : Prop :=
   1 ≤ fuel ∧ ∀ nt w, startW E nt = some w → (rank nt + 1) * C ≤ fuel
 
-theorem kwayLoop_total (R : RHyp E rank Good) (hnf : ∀ p, E.filter p = true) {L Al A : Nat} (T : THyp E L Al A) {fuel : Nat}
-    (hf : FuelOK E rank (L + Al + A + 6) fuel) (k : Nat) {s : St U π} {emE : List (π × Prog × UNT U)}
-    (hc : OC E rank s emE) (hcc : CacheC s) : ∃ res, kwayLoop E fuel (k + 1) s = some res ∧ CacheC res.1 := by
+theorem kwayLoop_total (R : RHyp E rank Good) {L Al A : Nat} (T : THyp E L Al A) {fuel : Nat}
+    (hf : FuelOK E rank (L + Al + A + 6 + (langList E rank).length) fuel) (k : Nat) {s : St U π}
+    {emE : List (π × Prog × UNT U)} (hc : OC E rank s emE) (hcc : CacheC s) :
+    ∃ res, kwayLoop E fuel (k + 1) s = some res ∧ CacheC res.1 := by
   have H := R.ohyp
   have h := hc.og
   simp only [UHS.kwayLoop]
@@ -165,8 +211,9 @@ theorem kwayLoop_total (R : RHyp E rank Good) (hnf : ∀ p, E.filter p = true) {
     obtain ⟨w, pr, hw, hpr, hpa⟩ := h.base.sinv.start_ok _ hm
     simp only at hw hpr hpa
     have hcc0 : CacheC { s with startHeap := h' } := hcc.congr (fun _ => rfl) (CacheGrow.refl _)
-    obtain ⟨s1, hpn, hc1⟩ := pushNext_total R hnf T (p := some q) h0 hcc0 hw (hf.2 nt w hw) (by intro k hk; cases hk; exact hpq)
-    obtain ⟨g1, _, _, _, _, _⟩ := h0.pushNext R hnt0 (by simp [doneR_cons_self])
+    obtain ⟨s1, hpn, hc1⟩ := pushNext_total R T (p := some q) h0 hcc0 hw (hf.2 nt w hw) (by intro k hk; cases hk; exact hpq)
+      (by intro hk; cases hk)
+    obtain ⟨g1, _, _, _, _, hdl⟩ := h0.pushNext R hnt0 (by simp [doneR_cons_self])
       (by intro k hk; cases hk; exact hpq) (by intro hk; cases hk) pa
       (by
         intro x hx
@@ -180,12 +227,16 @@ theorem kwayLoop_total (R : RHyp E rank Good) (hnf : ∀ p, E.filter p = true) {
         cases hw'
         rw [hasPrio_fun H _ _ _ _ hpr' hpr]
         exact hpa) hpn
-    have hnd : s1.deleted.contains q = false := by rw [g1.base.nodel hnf]; rfl
+    have hnd : s1.deleted.contains q = false := by
+      rw [hdl]
+      cases hcq : s.deleted.contains q with
+      | false => rfl
+      | true => exact absurd (by simpa using hcq) hqdel
     simp only [hpn, hnd, Bool.false_eq_true, if_false]
     exact ⟨_, rfl, hc1⟩
 
-theorem startQuery_total (R : RHyp E rank Good) (hnf : ∀ p, E.filter p = true) {L Al A : Nat} (T : THyp E L Al A) {fuel : Nat}
-    (hf : FuelOK E rank (L + Al + A + 6) fuel) {s : St U π} {emE : List (π × Prog × UNT U)}
+theorem startQuery_total (R : RHyp E rank Good) {L Al A : Nat} (T : THyp E L Al A) {fuel : Nat}
+    (hf : FuelOK E rank (L + Al + A + 6 + (langList E rank).length) fuel) {s : St U π} {emE : List (π × Prog × UNT U)}
     (hc : OC E rank s emE) (hcc : CacheC s) : ∃ res, startQuery E fuel s = some res ∧ CacheC res.1 := by
   unfold UHS.startQuery
   simp only [R.ohyp.ghyp.kway, if_true]
@@ -196,7 +247,7 @@ theorem startQuery_total (R : RHyp E rank Good) (hnf : ∀ p, E.filter p = true)
     obtain ⟨hs0, he0⟩ := hc.og.ginv.inited hi0'
     have he0' : emE = [] := by simpa using he0
     subst he0'
-    obtain ⟨s1, h1, hc1⟩ := pushNexts_total R hnf T (E.G.starts.map (·.1)) s hc.og hcc R.starts_nodup
+    obtain ⟨s1, h1, hc1⟩ := pushNexts_total R T (E.G.starts.map (·.1)) s hc.og hcc R.starts_nodup
       (by rw [hs0]; intro nt hm; cases hm) (fun nt hn => (startW_some_iff E nt).mpr hn)
       (fun nt hn => by obtain ⟨w, hw⟩ := (startW_some_iff E nt).mpr hn; exact hf.2 nt w hw)
     simp only [h1]
@@ -204,30 +255,51 @@ theorem startQuery_total (R : RHyp E rank Good) (hnf : ∀ p, E.filter p = true)
       (by intro nt hn hs _; exact absurd hs hn) h1
     have hoc1 : OC E rank s1 [] := ⟨g1, fun _ nt w hw hn => hex1 nt ((startW_some_iff E nt).mp ⟨w, hw⟩) hn⟩
     rw [hf']
-    exact kwayLoop_total R hnf T (hf' ▸ hf) f' hoc1 hc1
+    exact kwayLoop_total R T (hf' ▸ hf) f' hoc1 hc1
   · simp only [hi0, Bool.false_eq_true, if_false]
     rw [hf']
-    exact kwayLoop_total R hnf T (hf' ▸ hf) f' hc hcc
+    exact kwayLoop_total R T (hf' ▸ hf) f' hc hcc
 
-theorem next_total (R : RHyp E rank Good) (hnf : ∀ p, E.filter p = true) {L Al A : Nat} (T : THyp E L Al A) {fuel : Nat}
-    (hf : FuelOK E rank (L + Al + A + 6) fuel) (k : Nat) {s : St U π} {emE : List (π × Prog × UNT U)}
-    (hc : OC E rank s emE) (hcc : CacheC s) : ∃ res, next E fuel (k + 1) s = some res ∧ CacheC res.1 := by
-  obtain ⟨⟨s1, r⟩, hq, hc1⟩ := startQuery_total R hnf T hf hc hcc
-  simp only [UHS.next, hq]
-  cases r with
-  | none => exact ⟨_, rfl, hc1⟩
-  | some p =>
-    simp only [hnf p, if_true]
-    exact ⟨_, rfl, hc1⟩
+theorem cacheC_addDeleted {s : St U π} (h : CacheC s) (p : Prog) : CacheC (s.addDeleted p) := by
+  unfold St.addDeleted
+  split
+  · exact h
+  · exact h.congr (fun _ => rfl) (CacheGrow.refl _)
 
-theorem take_total (R : RHyp E rank Good) (hnf : ∀ p, E.filter p = true) {L Al A : Nat} (T : THyp E L Al A) {fuel : Nat}
-    (hf : FuelOK E rank (L + Al + A + 6) fuel) : ∀ (k : Nat) {s : St U π} {emE : List (π × Prog × UNT U)} (acc : List Prog),
+/-- **`next(generator)` returns**: a rejected program costs one step of the loop, and at most
+    `|langList| − |taken so far|` programs can still be rejected -/
+theorem next_total (R : RHyp E rank Good) {L Al A : Nat} (T : THyp E L Al A) {fuel : Nat}
+    (hf : FuelOK E rank (L + Al + A + 6 + (langList E rank).length) fuel) : ∀ (k : Nat) {s : St U π}
+    {emE : List (π × Prog × UNT U)}, (langList E rank).length - emE.length + 1 ≤ k → OC E rank s emE → CacheC s →
+    ∃ res, next E fuel k s = some res ∧ CacheC res.1
+  | 0, _, _, hk, _, _ => by omega
+  | k + 1, s, emE, hk, hc, hcc => by
+    obtain ⟨⟨s1, r⟩, hq, hc1⟩ := startQuery_total R T hf hc hcc
+    simp only [UHS.next, hq]
+    cases r with
+    | none => exact ⟨_, rfl, hc1⟩
+    | some p =>
+      simp only
+      rcases hc.startQuery R hq with ⟨he, _⟩ | ⟨e, he, g⟩
+      · cases he
+      · cases he
+        by_cases hfp : E.filter e.2.1 = true
+        · simp only [hfp, if_true]
+          exact ⟨_, rfl, hc1⟩
+        · simp only [hfp, Bool.false_eq_true, if_false]
+          have hfp' : E.filter e.2.1 = false := by simpa using hfp
+          have hlen := em_length_le R g.og
+          simp only [List.length_cons] at hlen
+          exact next_total R T hf k (by simp only [List.length_cons]; omega) (g.addDeleted R hfp')
+            (cacheC_addDeleted hc1 _)
+
+theorem take_total (R : RHyp E rank Good) {L Al A : Nat} (T : THyp E L Al A) {fuel : Nat}
+    (hf : FuelOK E rank (L + Al + A + 6 + (langList E rank).length) fuel) (hN : (langList E rank).length + 1 ≤ fuel) :
+    ∀ (k : Nat) {s : St U π} {emE : List (π × Prog × UNT U)} (acc : List Prog),
     OC E rank s emE → CacheC s → ∃ s' out b, take E fuel k s acc = some (s', out, b) ∧ (b = false → out.length = acc.length + k)
   | 0, s, _, acc, _, _ => ⟨s, acc, false, rfl, fun _ => rfl⟩
   | k + 1, s, emE, acc, hc, hcc => by
-    obtain ⟨f', hf'⟩ : ∃ f', fuel = f' + 1 := ⟨fuel - 1, by have := hf.1; omega⟩
-    obtain ⟨⟨s1, r⟩, hn, hc1⟩ := next_total R hnf T hf f' hc hcc
-    rw [← hf'] at hn
+    obtain ⟨⟨s1, r⟩, hn, hc1⟩ := next_total R T hf fuel (by omega) hc hcc
     cases r with
     | none =>
       refine ⟨s1, acc, true, by simp only [UHS.take, hn], by intro hb; cases hb⟩
@@ -235,36 +307,36 @@ theorem take_total (R : RHyp E rank Good) (hnf : ∀ p, E.filter p = true) {L Al
       obtain ⟨new, _, hres⟩ := hc.next R fuel hn
       rcases hres with ⟨he, _⟩ | ⟨e, _, _, g⟩
       · cases he
-      · obtain ⟨s', out, b, ht, hlen⟩ := take_total R hnf T hf k (acc ++ [p]) g hc1
+      · obtain ⟨s', out, b, ht, hlen⟩ := take_total R T hf hN k (acc ++ [p]) g hc1
         refine ⟨s', out, b, by simp only [UHS.take, hn]; exact ht, ?_⟩
         intro hb
         rw [hlen hb]
         simp
         omega
 
-/-- **the generator stops**: with enough fuel there is a number of `next` steps after which the generator
-    has raised `StopIteration` -/
-theorem take_stops (R : RHyp E rank Good) (hnf : ∀ p, E.filter p = true) {L Al A : Nat} (T : THyp E L Al A) {fuel : Nat}
-    (hf : FuelOK E rank (L + Al + A + 6) fuel) : ∃ k s' out, take E fuel k (St.empty E.G) [] = some (s', out, true) := by
-  let Lg : List Prog := E.G.starts.flatMap (fun st => langL E (rank st.1 + 1) st.1)
+/-- **the generator stops** (with or without filter): with enough fuel there is a number of `next` steps after
+    which the generator has raised `StopIteration` -/
+theorem take_stops (R : RHyp E rank Good) {L Al A : Nat} (T : THyp E L Al A) {fuel : Nat}
+    (hf : FuelOK E rank (L + Al + A + 6 + (langList E rank).length) fuel) (hN : (langList E rank).length + 1 ≤ fuel) :
+    ∃ k s' out, take E fuel k (St.empty E.G) [] = some (s', out, true) := by
   have hce : CacheC (St.empty E.G : St U π) := by
     intro nt p hp
     rcases (og_empty (rank := rank) E).all nt with hu | hf'
     · rw [hu.2.2.2] at hp; cases hp
     · have := hf'.1.init
       simp [St.empty] at this
-  obtain ⟨s', out, b, ht, hlen⟩ := take_total R hnf T hf (Lg.length + 1) [] (oc_empty E) hce
+  obtain ⟨s', out, b, ht, hlen⟩ := take_total R T hf hN ((langList E rank).length + 1) [] (oc_empty E) hce
   cases b with
   | true => exact ⟨_, s', out, ht⟩
   | false =>
     exfalso
     have hl := hlen rfl
     have hnd := (take_nodup E R.nhyp fuel _ s' out false ht).1
-    have hsub : ∀ p, p ∈ out → p ∈ Lg := by
+    have hsub : ∀ p, p ∈ out → p ∈ langList E rank := by
       intro p hp
       obtain ⟨nt, w, hw, hd⟩ := ((sinv_empty E).take R.ohyp.ghyp _ (by intro q hq; cases hq) ht).2 p hp
       exact List.mem_flatMap.mpr ⟨(nt, w), AList.lookup_some_mem hw, mem_langL R.ohyp.acyclic _ p nt (Nat.lt_succ_self _) hd⟩
-    have := nodup_length_le out Lg hnd hsub
+    have := nodup_length_le out (langList E rank) hnd hsub
     simp at hl
     omega
 
